@@ -119,8 +119,159 @@ static Outcome runCsvCase(const vj::Value& c)
 	return res;
 }
 
+// api: a sequence of calls on one IniFile object (spec/IniCsv.tla, "the IniFile object"); results of the calls and the const
+// queries at the end are compared with what TLC printed; every call is logged (with the bytes each write left) for Trace_IniCsv
+static Outcome runApiCase(const vj::Value& c)
+{
+	Outcome res;
+	res.nontrivial = c["steps"].size() > 0;
+	std::string bad;
+	std::vector<std::string> events;
+	{
+		ApiSession sess(g_tmp->path, (unsigned long)(vrun::fnv(c["text"].bytes()) >> 5) + c["steps"].size());
+		sess.start(c["text"].bytes(), c["exists"].b);
+		sess.open(c["sw"].b);
+		for (size_t i = 0; i < c["steps"].size() && bad.empty(); i++)
+		{
+			const vj::Value& m = c["steps"][i]["c"];
+			const vj::Value& r = c["steps"][i]["r"];
+			const std::string& k = m["m"].s();
+			if (k == "set") sess.set(m["sec"].bytes(), m["key"].bytes(), m["val"].bytes());
+			else if (k == "get")
+			{
+				std::string got = sess.get(m["sec"].bytes(), m["key"].bytes());
+				if (got != r.bytes()) bad = "operator[](" + vj::quote(ApiSession::fullName(m["sec"].bytes(), m["key"].bytes())) + ") is " + vj::quote(got) + ", specification says " + vj::quote(r.bytes());
+			}
+			else if (k == "cur") sess.cur(m["sec"].bytes());
+			else if (k == "asize")
+			{
+				int n = sess.asize(m["sec"].bytes());
+				if (n != r.i()) bad = "arraysize(" + vj::quote(m["sec"].bytes()) + ") is " + std::to_string(n) + ", specification says " + std::to_string(r.i());
+			}
+			else if (k == "aget")
+			{
+				std::string got = sess.aget(m["field"].bytes(), m["idx"].i());
+				if (got != r.bytes()) bad = "array(" + vj::quote(m["field"].bytes()) + ", " + std::to_string(m["idx"].i()) + ") is " + vj::quote(got) + ", specification says " + vj::quote(r.bytes());
+			}
+			else if (k == "write") sess.write();
+			else if (k == "writeTo") sess.writeTo();
+			else if (k == "writeBad") sess.writeBad();
+			else if (k == "reopen") { sess.close(); sess.open(true); }
+			else bad = "harness: unknown call " + k;
+		}
+		if (bad.empty() && c["open"].b)
+		{
+			std::vector<Entry> probes;
+			for (size_t i = 0; i < c["obs"]["q"].size(); i++)
+			{
+				Entry e;
+				e.sec = c["obs"]["q"][i]["sec"].bytes();
+				e.key = c["obs"]["q"][i]["key"].bytes();
+				probes.push_back(e);
+			}
+			sess.observe(probes);
+			bad = obsMismatch(c["obs"], vj::parse(sess.events.back()));
+		}
+		if (sess.ini) sess.close();
+		events = sess.events;
+	}
+	for (size_t i = 0; i < events.size(); i++) logLine(events[i]);
+	if (!bad.empty()) return Outcome::fail("api: " + bad + " (after " + std::to_string(events.size()) + " events)");
+	return res;
+}
+
+// csvw: a table written by TabularDataFile with options; the file is judged by TLC (Trace_IniCsv, CsvWOK / ArffOK / snapshots); here:
+// what a fresh object reads back (inferable dialects) and the specification's own rendering through the real reader
+static Outcome runCsvWCase(const vj::Value& c)
+{
+	WOptions o;
+	o.sep = c["sep"].i();
+	o.dec = c["dec"].i();
+	o.flush = c["flush"].i();
+	o.quotes = c["q"].b;
+	o.arff = c["arff"].b;
+	for (size_t j = 0; j < c["names"].size(); j++) o.names.push_back(c["names"][j].bytes());
+	for (size_t j = 0; j < c["types"].size(); j++) o.types.push_back(c["types"][j].bytes());
+	std::vector<std::vector<Cell> > rows;
+	std::vector<bool> early;
+	size_t cells = 0;
+	for (size_t i = 0; i < c["rows"].size(); i++)
+	{
+		std::vector<Cell> row;
+		for (size_t j = 0; j < c["rows"][i].size(); j++)
+		{
+			Cell cell;
+			cell.num = c["rows"][i][j]["t"].s() == "n";
+			cell.s = c["rows"][i][j]["s"].bytes();
+			row.push_back(cell);
+			cells++;
+		}
+		rows.push_back(row);
+		early.push_back(c["early"][i].b);
+	}
+	Outcome res;
+	res.nontrivial = cells >= 2;
+	bool readable = c["readable"].b;
+	unsigned h = (unsigned)(vrun::fnv(c["file"].bytes() + (char)o.sep) >> 11);
+	int nvar = getenv("C18_HALF_CSV") ? 1 : 3;
+	for (int k = 0; k < nvar; k++)
+	{
+		std::string problem;
+		std::string stem = o.arff ? g_tmp->path + "/t" : pathFor("csvw");
+		std::string ev = runCsvW(stem, o, rows, early, readable, h + (unsigned)k * 5, problem);
+		if (!problem.empty()) return Outcome::fail("csvw: " + problem);
+		logLine(ev);
+		if (!readable) continue;
+		vj::Value e = vj::parse(ev);
+		std::string why = rowsMismatch(c["back"], e["got"], false);
+		if (!why.empty()) return Outcome::fail("csvw (sep " + std::to_string(o.sep) + ", dec " + std::to_string(o.dec) + (o.quotes ? ", quotes" : "") + "): read back " + why +
+		                                       "; file written: " + vj::quote(e["file"].bytes().substr(0, 300)));
+	}
+	if (readable)
+	{
+		std::string path = pathFor("csvwspec") + ".csv";
+		vj::Value e = vj::parse(runCsvR(path, c["file"].bytes(), ""));
+		std::string why = rowsMismatch(c["back"], e["rows"], false);
+		if (!why.empty()) return Outcome::fail("csvw: reading the specification's rendering " + vj::quote(c["file"].bytes().substr(0, 300)) + " gives " + why);
+	}
+	return res;
+}
+
+// csvr: a file of another tool through the real reader
+static Outcome runCsvRCase(const vj::Value& c)
+{
+	Outcome res;
+	std::string path = pathFor("csvr") + ".csv";
+	std::string ev = runCsvR(path, c["file"].bytes(), c["types"].bytes());
+	logLine(ev);
+	if (c["unspec"].b) return res;
+	vj::Value e = vj::parse(ev);
+	std::string shown = vj::quote(c["file"].bytes().substr(0, 200));
+	std::string why = rowsMismatch(c["rows"], e["rows"], true);
+	if (!why.empty()) return Outcome::fail("csvr: " + shown + " read with nextRow(): " + why);
+	why = rowsMismatch(c["rows"], e["data"], true);
+	if (!why.empty()) return Outcome::fail("csvr: " + shown + " read with data(): " + why);
+	if (!e["past"].b) return Outcome::fail("csvr: " + shown + ": operator[] outside the row or for an unknown column returns something, or nextRow() succeeds after the end");
+	if (c["hdr"].b)
+	{
+		if (e["names"].size() != c["names"].size()) return Outcome::fail("csvr: " + shown + ": columns() has " + std::to_string(e["names"].size()) + " names, specification says " + std::to_string(c["names"].size()));
+		for (size_t j = 0; j < c["names"].size(); j++)
+			if (e["names"][j].bytes() != c["names"][j].bytes()) return Outcome::fail("csvr: " + shown + ": column " + std::to_string(j) + " is named " + vj::quote(e["names"][j].bytes()));
+		if (e["ncols"].i() != (int)c["names"].size()) return Outcome::fail("csvr: " + shown + ": numColumns() is " + std::to_string(e["ncols"].i()));
+		if (e["rows"].size() == c["rows"].size())
+		{
+			why = rowsMismatch(c["byname"], e["byname"], false);
+			if (!why.empty()) return Outcome::fail("csvr: " + shown + " read with file[name]: " + why);
+		}
+	}
+	return res;
+}
+
 static Outcome runCase(const vj::Value& c)
 {
+	if (c["k"].s() == "csvw") return runCsvWCase(c);
+	if (c["k"].s() == "csvr") return runCsvRCase(c);
+	if (c["k"].s() == "api") return runApiCase(c);
 	if (c["k"].s() == "ini") return runIniCase(c);
 	if (c["k"].s() == "csv") return runCsvCase(c);
 	return Outcome::fail("harness: unknown case kind");
